@@ -18,7 +18,7 @@ def declare(S: Spec):
     S.pred("ParentsDone", [("st", Ref("PipelineRuntimeStatus")), ("op", Ref("Operator"))],
            "all(st.operator_states[par] == OperatorState.COMPLETED for par in op.parents)")
 
-    S.fn(f"{MS}:PipelineRuntimeStatus.get_ops", owners=["C01", "C17"],
+    S.fn(f"{MS}:PipelineRuntimeStatus.get_ops", owners=["C01", "C17", "C12", "C08"],
          params={"state": SeqV(OpState), "require_parents_complete": BOOL},
          returns=List(Ref("Operator")),
          requires=["StatusWF(self)", "nodup(keys(self.operator_states))"],
